@@ -5,6 +5,8 @@ import (
 	"bytes"
 	"errors"
 	"fmt"
+	"net"
+	"net/netip"
 	"regexp"
 	"strings"
 	"sync"
@@ -472,3 +474,74 @@ func TestVerifC07Concurrent(t *testing.T) {
 }
 
 func TestVerifReplay(t *testing.T) { vstat.RunReplays(t) }
+
+// native fuzzing (thorough tier) over the structured generator
+func FuzzC07Rapid(f *testing.F) {
+	f.Fuzz(rapid.MakeFuzz(func(rt *rapid.T) {
+		c := genCase(rt)
+		if err := vstat.Safely(func() error { return runScrub(nil, c) }); err != nil {
+			rt.Fatalf("%s", uScrub.Fail(c, "%v", err))
+		}
+	}))
+}
+
+// byte-level: bytes choose split points; text is built from the bytes over a small alphabet
+// of address pieces and delimiters, embedded addresses are found with Go's own parsers
+var fuzzPort = regexp.MustCompile(`^:\d{1,5}$`)
+
+func FuzzC07Bytes(f *testing.F) {
+	f.Add([]byte("1.2.3.4 5.6.7.8\n"), uint8(3))
+	f.Add([]byte("[::1]:80,[2001:db8::1]\n9.9.9.9"), uint8(1))
+	f.Fuzz(func(t *testing.T, data []byte, split uint8) {
+		// keep to the filler alphabet + address characters so that the survivor scan is exact
+		var b []byte
+		for _, ch := range data {
+			switch {
+			case ch >= '0' && ch <= '9', ch == '.', ch == ':', ch == '[', ch == ']', ch == ' ', ch == ',', ch == '\n', ch == ';', ch == '=', ch == '(', ch == ')':
+				b = append(b, ch)
+			case ch >= 'a' && ch <= 'f', ch >= 'A' && ch <= 'F':
+				b = append(b, ch)
+			default:
+				b = append(b, "ghjkmnpq rstuvwxyz"[int(ch)%18])
+			}
+		}
+		text := string(b)
+		// the embedded addresses: maximal tokens between delimiters that parse as an address
+		var hosts []string
+		for _, tok := range strings.FieldsFunc(text, func(r rune) bool { return strings.ContainsRune(" ,\n;=()", r) }) {
+			h := tok
+			if hp, _, err := net.SplitHostPort(tok); err == nil {
+				h = hp
+			}
+			h = strings.TrimSuffix(strings.TrimPrefix(h, "["), "]")
+			if a, err := netip.ParseAddr(h); err == nil && a.Zone() == "" && (strings.Contains(h, ".") || strings.Contains(h, ":")) {
+				// only forms the generator also produces (no leading zeros in IPv4 etc. is implied by ParseAddr)
+				if tok == h || tok == "["+h+"]" || fuzzPort.MatchString(strings.TrimPrefix(tok, h)) && !strings.Contains(h, ":") || fuzzPort.MatchString(strings.TrimPrefix(tok, "["+h+"]")) {
+					hosts = append(hosts, h)
+				}
+			}
+		}
+		if len(hosts) == 0 {
+			return
+		}
+		out := string(safelog.Scrub([]byte(text)))
+		outTok := map[string]bool{}
+		for _, tok := range strings.FieldsFunc(out, func(r rune) bool { return strings.ContainsRune(" ,\n;=()", r) }) {
+			outTok[tok] = true
+			if hp, port, err := net.SplitHostPort(tok); err == nil && fuzzPort.MatchString(":"+port) {
+				outTok[hp] = true
+			}
+			if strings.HasPrefix(tok, "[") && strings.HasSuffix(tok, "]") {
+				outTok[tok[1:len(tok)-1]] = true
+			}
+		}
+		for _, h := range hosts {
+			if len(h) >= 2 && outTok[h] {
+				// the token must really be delimited on both sides in the input
+				c := scase{Lines: []line{{Text: text, Hosts: hosts, Term: ""}}}
+				t.Fatalf("%s", uScrub.Fail(c, "address %q survives scrubbing\n in:  %q\n out: %q", h, text, out))
+			}
+		}
+		_ = split
+	})
+}
